@@ -1,6 +1,7 @@
 package sym
 
 import (
+	"os"
 	"fmt"
 	"go/types"
 	"runtime/debug"
@@ -150,6 +151,13 @@ func (x *Exec) VerifyFunc(fn *ssa.Function) (rep *FuncReport) {
 		f.over = map[string]Value{}
 		f.bindResults(sp, r.results)
 		f.cur, f.curIdx = nil, 0
+		if os.Getenv("GOWP_EXITREACH") != "" && len(sp.Of("ensures")) > 0 {
+			// audit aid (not part of any check): is this return reachable at all? A return whose
+			// path condition is unsatisfiable discharges every postcondition vacuously
+			if o := x.oblige("exit-reach", "this return is reachable", r.where, r.st, x.B.False()); o != nil {
+				o.Expect = "sat"
+			}
+		}
 		for _, c := range sp.Of("ensures") {
 			g := f.evalBool(c.Expr, r.st, entry)
 			x.oblige("ensures", c.Text, fmt.Sprintf("%s:%d (return at %s)", shortFile(c.File), c.Line, r.where), r.st, g)
